@@ -6,7 +6,7 @@ them); a finding may narrow this with Finding.detail['props'].
 
 PROPS = {
     'C01': {
-        'rules': ['R09', 'R07', 'R08', 'R13', 'R01', 'R28', 'R29'],
+        'rules': ['R09', 'R07', 'R08', 'R13', 'R01', 'R28', 'R29', 'R37'],
         'decided': 'support captured as the dual of exactly the given constraints after a reset; '
                    'every robust constraint lowered with its own or the default set; le_to_rc '
                    'consumes every part of the support (rows, sense, bound code, SOC, exp, LMI); '
@@ -27,14 +27,14 @@ PROPS = {
         'not_decided': 'everything numeric',
     },
     'C06': {
-        'rules': ['R05', 'R06', 'R25', 'R28', 'R30', 'R24'],
+        'rules': ['R05', 'R06', 'R25', 'R28', 'R30', 'R24', 'R27'],
         'decided': 'every accepted atom / constraint class / objective form has a lowering branch '
                    'in some layer, no shadowed branch, unknown types raise; no constructor field '
                    'of an accepted expression is dropped on the way to its lowering',
         'not_decided': 'that each lowering is the right cone',
     },
     'C07': {
-        'rules': ['R15', 'R33', 'R06', 'R36'],
+        'rules': ['R15', 'R33', 'R06', 'R36', 'R19'],
         'decided': 'integrality vector aligned with columns under every call history; '
                    'formulation-time variables are continuous; weight bookkeeping of the power-cone '
                    'tower (padding to a power of two exactly once, children of split() sum to half the '
@@ -58,7 +58,7 @@ PROPS = {
         'not_decided': 'numerical equality of re-solve and from-scratch results',
     },
     'C10': {
-        'rules': ['R11', 'R25'],
+        'rules': ['R11', 'R25', 'R37'],
         'decided': 'sign calculus of every convex family class x operator over the whole sign '
                    'domain; comparison guards; bilinear guards; the static/adaptive flag `fixed` of a '
                    'rebuilt DecAffine depends on self.fixed on every path',
@@ -71,7 +71,7 @@ PROPS = {
         'not_decided': 'numerical agreement of optima, solver status semantics',
     },
     'C12': {
-        'rules': ['R17', 'R18', 'R25', 'R27', 'R06', 'R31'],
+        'rules': ['R17', 'R18', 'R25', 'R27', 'R06', 'R31', 'R36'],
         'decided': 'read-back guards; sense applied exactly once each way; evaluator branch laws',
         'not_decided': 'index arithmetic of DecVar.get / rule_var, scenario labelling',
     },
